@@ -59,6 +59,7 @@ type filter struct {
 	without    bitMask
 	cache      cacheID
 	hasWithout bool
+	exclusive  bool
 }
 
 // newFilter creates a new filter for presence of the given components.
@@ -79,6 +80,7 @@ func (f *filter) matches(mask *bitMask) bool {
 func (f filter) Without(ids ...ID) filter {
 	f.without = newMask(ids...)
 	f.hasWithout = true
+	f.exclusive = false
 	return f
 }
 
@@ -87,5 +89,6 @@ func (f filter) Without(ids ...ID) filter {
 func (f filter) Exclusive() filter {
 	f.without = f.mask.Not()
 	f.hasWithout = true
+	f.exclusive = true
 	return f
 }
